@@ -13,6 +13,11 @@ NA_FIXED = {
 }
 
 CLAIMS = {
+    'C08': dict(
+        technique="instance-level call resolution (rustc Instance::try_resolve through provided trait methods) for 'one predicate per rate', truth-table evaluation of Rate::validate's typed-HIR decision atoms, interprocedural fail-source summaries for constructors/reset",
+        text="Decides the agreement clauses for every codec kind: encoder, decoder and rate answer supports/validate from one predicate (no overrides; instance resolution shown); validate is Ok exactly for supports AND non-zero AND even (all feasible rows); new/reset of the dedicated rates fail exactly through their own validate on their own arguments in order; default-rate new/reset fail only through the rate decision or a dedicated validate.",
+        note="Not decided (arithmetic): that the predicates equal the README staircase, that every configuration inside round-trips, and the converse 'decision high => HighRate supports' for the default rate.",
+        design="§4 C08"),
     'C03': dict(
         technique="sibling cross-check of typed-HIR normal forms of the butterfly schedule functions across engines (x86_64 and a type-checked aarch64 build for Neon), MIR pointer-provenance tracing with layout sizes for every vector load/store, unsafe census, forwarding recognition for eval_poly",
         text="Decides the structural clauses: the FFT/IFFT schedules (loop nest, skew-table indexes, GF_MODULUS branches, kernel called per arm) are identical across NoSimd/Ssse3/Avx2 and NoSimd/Neon; every one of the 124 vector loads/stores stays inside the 64-byte block or 16-byte table entry its pointer came from; unsafe code is confined to target_feature calls, intrinsics and constant pointer offsets; every engine's eval_poly is the one shared body. The Neon engine is never executed by any x86 test; here it is analysed as a real compiled program.",
